@@ -339,6 +339,20 @@ func runC18(r *mc.Run) {
 			o.Validation.TdQuoteBodyOptions.AnyMrTd = [][]byte{flip(cos[48+136:48+184], 9)}
 		}},
 	}
+	// two expectations on one field: both must hold (a pinned MR_TD and an allowed list; pinned RTMRs and report data)
+	pfaults = append(pfaults,
+		c18fault{"mr-td-pinned-to-another-value+any-mr-td-lists-the-quotes", func(p *world.QuoteParts, o *rtmr.ParseTdxCcelOpts) {
+			o.Validation.TdQuoteBodyOptions.MrTd = flip(p.Body[136:184], 4)
+			o.Validation.TdQuoteBodyOptions.AnyMrTd = [][]byte{world.Fill("c18-other-mrtd", 48), append([]byte(nil), p.Body[136:184]...)}
+		}},
+		c18fault{"mr-td-pinned-to-the-quotes+any-mr-td-lacks-it", func(p *world.QuoteParts, o *rtmr.ParseTdxCcelOpts) {
+			o.Validation.TdQuoteBodyOptions.MrTd = append([]byte(nil), p.Body[136:184]...)
+			o.Validation.TdQuoteBodyOptions.AnyMrTd = [][]byte{world.Fill("c18-other-mrtd", 48), flip(p.Body[136:184], 40)}
+		}},
+		c18fault{"mr-td-pinned-to-the-quotes+any-mr-td-lists-it(control)", func(p *world.QuoteParts, o *rtmr.ParseTdxCcelOpts) {
+			o.Validation.TdQuoteBodyOptions.MrTd = append([]byte(nil), p.Body[136:184]...)
+			o.Validation.TdQuoteBodyOptions.AnyMrTd = [][]byte{append([]byte(nil), p.Body[136:184]...)}
+		}})
 	// the three owner-supplied identities (all 48 bytes) pinned to the quote's own values — a control — and
 	// cross-wired: each expectation holding another identity's value of the same quote
 	ownerFrom := len(pfaults)
